@@ -47,7 +47,8 @@ type feature struct {
 	Params string // extra parameters of the target function, e.g. ", d=5"
 	Body   string // statements of the target function (4-space indented lines)
 	Edits  []edit
-	Own    bool // the feature defines the target itself (Pre must define and register //:t)
+	Post   string // module-level code placed after the target() call
+	Own    bool   // the feature defines the target itself (Pre must define and register //:t)
 }
 
 func features() []feature {
@@ -76,6 +77,14 @@ func features() []feature {
 		{Name: "default-mutable", Params: ", d2=[1, {\"k\": 2}]", Body: "    x_d2 = d2\n", Edits: []edit{{"change mutable default", "{\"k\": 2}", "{\"k\": 3}"}}},
 		{Name: "closure", Pre: "def mk(n):\n    def inner(z):\n        return z + n\n    return inner\nCL = mk(5)\n", Body: "    x_cl = CL(1)\n",
 			Edits: []edit{{"change closure variable", "CL = mk(5)", "CL = mk(6)"}, {"change closure code", "return z + n", "return n + z + 0"}}},
+		{Name: "two-closures-one-def", Pre: "def mk3(n, flags=[]):\n    def run(z):\n        return z + n + len(flags)\n    return run\nC_A = mk3(1)\nC_B = mk3(2, [\"-O2\"])\n", Body: "    x_2c = C_A(0) + C_B(0)\n",
+			Edits: []edit{{"change what the second closure captured", "C_B = mk3(2,", "C_B = mk3(3,"}, {"change a default captured by the second closure", "\"-O2\"", "\"-O0\""}, {"change what the first closure captured", "C_A = mk3(1)", "C_A = mk3(4)"}}},
+		{Name: "two-lambdas-one-site", Pre: "def mkl(k):\n    return lambda v: v * k\nLS = [mkl(2), mkl(3)]\n", Body: "    x_ls = LS[0](1) + LS[1](1)\n",
+			Edits: []edit{{"change the second lambda's capture", "mkl(3)", "mkl(5)"}}},
+		{Name: "late-global", Body: "    x_late = LATE_G\n", Post: "LATE_G = 7\ndef late_helper(x):\n    return x + LATE_G\n",
+			Edits: []edit{{"change a global assigned below the target() call", "LATE_G = 7", "LATE_G = 8"}}},
+		{Name: "late-helper", Body: "    x_lh2 = late_fn(2)\n", Post: "def late_fn(x):\n    return x * 3\n",
+			Edits: []edit{{"change a helper defined below the target() call", "return x * 3", "return x * 4"}}},
 		{Name: "nested-def-lambda", Body: "    def nn(a):\n        return a + 1\n    lam = lambda q: q * 2\n    x_nn = nn(1) + lam(2)\n",
 			Edits: []edit{{"change nested def", "return a + 1", "return a + 2"}, {"change lambda", "q * 2", "q * 3"}}},
 		{Name: "helper-same-module", Pre: "def h1(x):\n    return x + 1\n", Body: "    x_h1 = h1(1)\n", Edits: []edit{{"change helper body", "return x + 1", "return x + 2"}}},
@@ -108,10 +117,11 @@ type program struct {
 func compose(fs ...feature) program {
 	p := program{Files: map[string]string{"dawn.toml": "name = \"p\"\n", "a.txt": "a\n"}}
 	var names []string
-	var pre, params, body strings.Builder
+	var pre, params, body, post strings.Builder
 	for _, f := range fs {
 		names = append(names, f.Name)
 		pre.WriteString(f.Pre)
+		post.WriteString(f.Post)
 		params.WriteString(f.Params)
 		body.WriteString(f.Body)
 		if f.Lib != "" {
@@ -136,7 +146,7 @@ func compose(fs ...feature) program {
 		}
 	}
 	p.Name = strings.Join(names, "+")
-	p.Files["BUILD.dawn"] = pre.String() + "def _t(t" + ps + "):\n" + body.String() + "target(name=\"t\", function=_t)\n"
+	p.Files["BUILD.dawn"] = pre.String() + "def _t(t" + ps + "):\n" + body.String() + "target(name=\"t\", function=_t)\n" + post.String()
 	return p
 }
 
@@ -336,8 +346,8 @@ func main() {
 			if fs[i].Lib != "" && fs[j].Lib != "" {
 				continue // both define lib.dawn
 			}
-			if !r.Thorough() && (i*7+j)%4 != 0 {
-				continue // quick: a quarter of the pairs
+			if !r.Thorough() && (i*7+j)%2 != 0 {
+				continue // quick: half of the pairs
 			}
 			progs = append(progs, compose(fs[i], fs[j]))
 			npairs++
@@ -471,7 +481,7 @@ func main() {
 	r.Finish(vlib.Coverage{
 		Evaluations:        r.Get("loads") + r.Get("edits") + r.Get("builds"),
 		DistinctNontrivial: r.Get("programs"),
-		Rule:               "all single features and all (quick: a quarter of the) pairs of features; per program: 2 fresh loads at different roots (+ another OS process), build + rebuild, every applicable single edit with fingerprint comparison, build after the edit and reason check; distinct programs are distinct by construction",
+		Rule:               "all single features and all (quick: half of the) pairs of features; per program: 2 fresh loads at different roots (+ another OS process), build + rebuild, every applicable single edit with fingerprint comparison, build after the edit and reason check; distinct programs are distinct by construction",
 		States:             r.Get("programs"),
 		Transitions:        r.Get("loads") + r.Get("edits") + r.Get("builds"),
 		Exhaustive:         true,
